@@ -8,6 +8,7 @@ import (
 	"fmt"
 	"os"
 	"path/filepath"
+	"runtime/debug"
 	"sort"
 	"strings"
 )
@@ -130,6 +131,22 @@ func NewResult(prop, tier string, seed uint64) *Result {
 func (r *Result) Count(k string) { r.Histogram[k]++ }
 func (r *Result) Fail(sig, desc string, c any) {
 	r.Failures = append(r.Failures, Failure{Sig: sig, Desc: desc, Case: c})
+}
+
+// Recover turns a panic of the code under test (in the calling goroutine) into a failure carrying the case, so that
+// the check reports the input on which the implementation crashed instead of dying itself.  Use: defer res.Recover(c).
+func (r *Result) Recover(c any) {
+	if p := recover(); p != nil {
+		stack := string(debug.Stack())
+		at := ""
+		for _, l := range strings.Split(stack, "\n") {
+			if strings.Contains(l, "/repo/") {
+				at = strings.TrimSpace(l)
+				break
+			}
+		}
+		r.Fail("implementation-panicked", fmt.Sprintf("the implementation panicked: %v (%s)", p, at), c)
+	}
 }
 func (r *Result) Sample(c any, max int) {
 	if len(r.Samples) < max {
